@@ -241,3 +241,21 @@ def install_concretizing_int_methods():
         return concretize(fi(self))
     patch_attr(RealFloat, '__int__', rf_int)
     patch_attr(Float, '__int__', f_int)
+
+
+def install_sign_lift():
+    """`False != <symbolic sign>` is decided by bool.__ne__ (CPython tries the left operand first unless the right one is a
+    subclass of ITS type, and nothing can subclass bool), which reads the raw digits of the int subclass.  RealFloat.compare is
+    the place where the repository compares the sign of one value with the sign of another: when the left value has a concrete
+    sign and the right one a symbolic sign, the left value is re-represented with its sign as a constant SymInt (same value)."""
+    from fpy2 import RealFloat
+    orig = RealFloat.compare
+
+    def compare(self, other):
+        if isinstance(other, RealFloat) and type(other._s) is SymInt and type(self._s) is not SymInt:
+            lifted = object.__new__(RealFloat)
+            lifted._s = SymInt(z3.BitVecVal(1 if self._s else 0, cur().W))
+            lifted._exp = self._exp; lifted._c = self._c; lifted._flags = self._flags
+            self = lifted
+        return orig(self, other)
+    patch_attr(RealFloat, 'compare', compare)
